@@ -1253,6 +1253,40 @@ func c16FailurePaths(ev *vlib.Evidence) {
 			}
 		}
 	}
+	// (c) allow-lists that are as long as (or longer than) the receiver's method set, with stale,
+	// duplicate or wrongly-cased entries: still exactly the listed names that exist
+	for _, allow := range [][]string{
+		{"alpha", "beta", "gamma", "delta", "nope"},
+		{"alpha", "alpha", "beta", "gamma", "delta"},
+		{"alpha", "beta", "gamma", "delta", "HelperReset"},
+		{"alpha", "beta", "gamma", "delta", "nope1", "nope2", "nope3"},
+		{"gamma", "gamma", "gamma", "gamma", "gamma", "gamma"},
+	} {
+		toy := &ToyService{}
+		s3 := &jsonrpc2.Server{}
+		if err := s3.Register("al_", toy, allow...); err != nil {
+			continue
+		}
+		listed := map[string]bool{}
+		for _, a := range allow {
+			listed[a] = true
+		}
+		call := serverRawCaller(s3)
+		for _, m := range []string{"alpha", "beta", "gamma", "delta", "helperReset"} {
+			code, msg := call("al_"+m, "[]")
+			ev.Case(fmt.Sprintf("long-allow-list/%v/%s", allow, m), true)
+			ev.Count("name-probes:long-allow-list", 1)
+			if !listed[m] && code != jsonrpc2.ErrCodeMethodNotFound {
+				ev.Violate("unlisted-name-callable:allow-list-as-long-as-method-set:"+m, map[string]interface{}{"allow_list": allow, "name": "al_" + m, "code": code, "err": msg})
+			}
+			if listed[m] && code == jsonrpc2.ErrCodeMethodNotFound {
+				ev.Violate("listed-name-not-found:allow-list-as-long-as-method-set:"+m, map[string]interface{}{"allow_list": allow, "name": "al_" + m, "err": msg})
+			}
+		}
+		if toy.count("HelperReset") > 0 {
+			ev.Violate("helper-method-ran:allow-list-as-long-as-method-set", map[string]interface{}{"allow_list": allow})
+		}
+	}
 	// (b) failed registrations
 	for _, allow := range [][]string{nil, {"aaa", "drain"}, {"aaa", "drain", "zzz", "zzzz"}} {
 		hb := &HalfBrokenService{}
@@ -1706,4 +1740,61 @@ func c08RepeatedRequests(ev *vlib.Evidence, driver string, idx int) {
 	if len(second) > nh {
 		ev.Violate("more-hosts-than-requested:repeated-request", detail)
 	}
+}
+
+// c03ReconnectAfterBalanceChange (C03): a client's spendable balance changes
+// between two of its connects by other means than its own keep-alives (the
+// wallet is spent by another node, withdrawn, topped up). Every connect is
+// judged on the balance at that moment.
+func c03ReconnectAfterBalanceChange(ev *vlib.Evidence, driver string, idx int) {
+	r := vlib.Rand("C03-reconnect-"+driver, idx)
+	min := mustBig(vlib.Pick(r, "1", "1000000", "0", "-1000"))
+	w, err := vlib.NewWorld(vlib.WorldOptions{Driver: driver, Price: big.NewInt(1), Interval: time.Nanosecond, MinBalance: min, Deposits: true})
+	if err != nil {
+		panic(err)
+	}
+	defer w.Close()
+	client := vlib.NewIdentity("c03rclient", idx%13)
+	w.RawStore.SetNode(store.Node{ID: store.NodeID(client.NodeID), IsHost: false, LastSeen: time.Now()})
+	linked := r.Intn(3) != 0
+	wallet := "0xReconnectWallet"
+	cc := w.Dial(client, "192.0.2.99:7")
+	trace := []string{}
+	steps := 3 + r.Intn(4)
+	below := r.Intn(2) == 0
+	for k := 0; k < steps; k++ {
+		tb := new(big.Int).Set(min)
+		if below {
+			tb.Sub(tb, big.NewInt(int64(1+r.Intn(5))))
+		} else {
+			tb.Add(tb, big.NewInt(int64(r.Intn(5))))
+		}
+		how := setSpendable(w, r, client.NodeID, wallet, linked, tb)
+		svc := cc.AgentSide
+		if r.Intn(3) == 0 {
+			cc = w.Dial(client, fmt.Sprintf("192.0.2.%d:7", 100+k)) // comes back on a new connection
+			svc = cc.AgentSide
+		}
+		var cresp pool.ConnectResponse
+		cerr := w.Signed(svc, client, client.NodeID, "vipnode_connect", &cresp, vlib.ConnectReq(false, "geth", "", ""))
+		cur, _, isLow := parseLowBalance(cerr)
+		trace = append(trace, fmt.Sprintf("balance=%s(%s) below=%v -> %v", tb, how, below, cerr))
+		ev.Count("connects-after-balance-changed-by-other-means", 1)
+		detail := map[string]interface{}{"driver": driver, "min": min.String(), "balance": tb.String(), "connect_number": k + 1, "trace": trace, "index": idx}
+		switch {
+		case below && !isLow:
+			ev.Violate("connect:not-refused-below-min:after-balance-changed-since-earlier-connect", detail)
+			return
+		case below && cur.Cmp(tb) != 0:
+			ev.Violate("connect:wrong-current-balance:after-balance-changed-since-earlier-connect", detail)
+			return
+		case !below && cerr != nil:
+			ev.Violate("connect:refused-at-or-above-min:after-balance-changed-since-earlier-connect", detail)
+			return
+		}
+		if r.Intn(3) != 0 {
+			below = !below
+		}
+	}
+	ev.Case(fmt.Sprintf("reconnect-after-balance-change/%s/%s", driver, strings.Join(trace, ";")), true)
 }
